@@ -29,6 +29,16 @@ order are *data choice points* unless stated otherwise):
         Close with code none/1000/1001/3000, EOF, reset, RST_STREAM} arrives {while the 101 / 200 is still in flight
         (before the peer reads again), after the peer has read again}; x carrier x worker.  Thorough tier: the same
         events injected mid-flight as well (Explorer A).
+  clwin the close-frame window (the CLOSE direction of hswin): the session is established, the peer stops reading, the
+        application sends websocket.close {1000, 3001 + reason} - directly, or after one binary message that fills the
+        server's buffers up to a boundary value of the documented limits (asyncio transport high-water mark 64 KiB;
+        HTTP/2 stream buffer 2 x 16 384 after 0..3 frames / the whole 65 535 byte window went below), so that the write
+        of the close frame itself waits (trio: send_all parks; asyncio: drain(); HTTP/2: the stream buffer's push) -
+        then the closing event {client Close with code none/1001/3000, EOF, reset, RST_STREAM} arrives {while that send
+        is under way, after the peer has read again}; x carrier x worker.  Thorough: also injected mid-flight.
+  ka    keep-alive histories on one HTTP/1.1 connection: k in {0,1,2} ordinary requests, then the upgrade, with
+        keep_alive_max_requests in {k, k+1, k+2} (the upgrade is beyond / exactly at / one before the limit) x accept
+        {plain, subprotocol, extra headers}, client offers subprotocols + permessage-deflate; one message, client Close.
 
 Oracle (reference: mc/x_c10c11_ref.py - RFC 6455 4.2.1 validity predicate, accept token via hashlib, ASGI decision
 automaton; no hypercorn code):
@@ -38,9 +48,13 @@ automaton; no hypercorn code):
   valid-handshake-not-upgraded   a plainly valid handshake starts exactly one websocket instance
   first-message                  the first message an instance receives is websocket.connect
   accept-rendering               accept => 101 (h1) / 200 (h2), sec-websocket-accept = b64(sha1(key+GUID)),
-                                 upgrade/connection headers, the chosen subprotocol iff one was chosen, the extra
-                                 headers, an extension only if offered; then the application's messages/close
-                                 reach the wsproto client unchanged
+                                 Upgrade: websocket, a Connection header that is exactly the token Upgrade (RFC 6455
+                                 4.2.2 5.3: no "close" next to it), the chosen subprotocol iff one was chosen, the extra
+                                 headers, an extension only if offered, and an extension the server USES (RSV1 on a
+                                 frame it wrote, read by a hand-written frame reader) announced in the 101 AND in the
+                                 HTTP/2 200; the raw 101 is accepted by an independent wsproto client that sent this
+                                 handshake (same key, offers); then the application's messages/close reach the wsproto
+                                 client - which enables only the extensions the response accepted - unchanged
   subprotocol-not-offered        never a subprotocol the client did not offer
   close-rendering                close => 403;  response-rendering: the HTTP-response extension gives exactly that
                                  status, headers (in order) and body, complete
@@ -58,15 +72,19 @@ from mc.clients import h1_request
 from mc.explore import V
 from mc.harness import internal_errors
 from mc.x_c10c11_ref import (INVALID, NOT_WS, VALID, DecisionModel, classify_h1, classify_h2, close_frame,
-                             ws_accept_token)
-from mc.x_c10c11_run import GuardClient, case_execute, make_window_client
+                             server_frames, ws_accept_token)
+from mc.x_c10c11_run import (GuardClient, case_execute, make_window_client, negotiated_deflate, raw_upgrade_response,
+                             wsproto_client_verdict)
 
 ID = "C11"
 LEVEL = "model_checking"
 TECHNIQUE = ("bounded exhaustive enumeration of handshakes (header product), of application decision sequences "
              "(generated from the ASGI reference automaton) and of closing orders - including closing events that arrive "
-             "while the handshake response is still being sent to a stalled peer - executed on the real server stack under "
-             "the virtual-time engines; deviation-bounded schedule exploration for racing closes")
+             "while the handshake response, or the application's own close frame, is still being sent to a stalled peer "
+             "(buffers filled to the boundary values of the documented limits) - and of keep-alive histories that put the "
+             "upgrade at / around keep_alive_max_requests, executed on the real server stack under the virtual-time engines; "
+             "handshake responses judged by an independent, extension-negotiating wsproto client; deviation-bounded "
+             "schedule exploration for racing closes")
 RULE = ("one execution = one connection; non-trivial = an application instance ran and a non-default data/schedule "
         "choice was taken; distinct by digest of (instances' message sequences and send outcomes, parsed client-side "
         "responses/frames, connection end state, logs)")
@@ -83,12 +101,20 @@ ASSUMPTIONS = [
     "reached it yet (its own reading is stalled; over HTTP/2 DATA may follow the CONNECT HEADERS at once); the arrival "
     "is placed in that window by a guard on the application's websocket.accept.  After an EOF / reset / RST_STREAM "
     "inside the window the handshake response need not reach the client",
+    "clwin: the filler sizes are the boundary values of documented limits (asyncio write-buffer high-water mark 64 KiB, "
+    "hypercorn's HTTP/2 stream buffer 2 x 16 384, default frame size and window); whether the close frame's write "
+    "really waited is not observed, the disconnect code 1000 (or the application's own code) is demanded either way; "
+    "the wire is judged only where the client stayed to read it",
+    "ka: 0..2 ordinary requests before the upgrade stand for any number; when the limit ends the connection before "
+    "the upgrade can be sent nothing is judged",
 ]
 BOUNDS_DOC = {"quick": "hs1/hs2/off full products; decision sequences depth<=3 sends; race M<=1,S<=2; hswin 3 accept kinds "
-                       "x 6-7 closing events x 2 timings at quiescence",
+                       "x 6-7 closing events x 2 timings at quiescence; clwin 2 close codes x 1-6 filler sizes x 5-6 closing "
+                       "events x 2 timings at quiescence; ka k<=2 x 3 limits x 3 accept kinds",
               "thorough": "hs1/hs2/off full products; decision sequences depth<=5 sends; race M<=2,S<=3, trio R<=1; hswin "
                           "6 accept/offer kinds x 6-7 closing events x 2 timings, events also injected mid-flight M<=2 "
-                          "for the plain accept, M<=1 for the other accept kinds, none for the > 64 KiB response head (trio R<=1)"}
+                          "for the plain accept, M<=1 for the other accept kinds, none for the > 64 KiB response head (trio R<=1); "
+                          "clwin as quick plus events injected mid-flight M<=1 (trio R<=1); ka as quick"}
 BUDGET = {"quick": 100, "thorough": 1150}
 
 ENGINES = ("asyncio", "trio")
@@ -151,6 +177,43 @@ TERMINALS = ("raise", "return", "wait")
 # hswin: what the client does while the server's send of the handshake response is pending / right after it completed
 HSWIN_CLOSINGS = ("cc:none", "cc:1000", "cc:1001", "cc:3000", "eof", "reset", "rst")
 HSWIN_TIMINGS = ("during", "after")
+
+# clwin: the application's close is written to a peer that is not reading.  What precedes it (data choice):
+#   ("none", 0)        nothing: the close frame is the first write to the stalled peer (trio: send_all parks at once)
+#   ("buffered", n)    one binary message whose frame is n bytes on the wire, written after the peer stalled: it sits in
+#                      the server's buffers and the few bytes of the close frame are what crosses the limit.  n takes the
+#                      boundary values of the documented limits: the asyncio transport's write-buffer high-water mark
+#                      (64 KiB, the write that takes the buffer ABOVE it waits in drain()) and, over HTTP/2, the stream
+#                      buffer's high-water mark (2 x 16 384: the push that takes it TO the mark waits) after the layers
+#                      below have taken 0..3 frames of 16 384 / the whole 65 535 byte flow-control window.
+AIO_HIGH_WATER = 64 * 1024
+H2_BUFFER_HIGH = 2 * 2 ** 14
+H2_FRAME_MAX = 2 ** 14
+H2_INITIAL_WINDOW = 65535
+CLWIN_CLOSINGS = ("cc:none", "cc:1001", "cc:3000", "eof", "reset", "rst")
+CLWIN_TIMINGS = ("during", "after")
+
+
+def clwin_fills(engine: str, carrier: str) -> List[Tuple[str, int]]:
+    fills: List[Tuple[str, int]] = [("none", 0)]
+    if carrier == "ws/h1":
+        if engine == "asyncio":  # (trio has no write buffer: the first write to a stalled peer parks, whatever its size)
+            fills += [("buffered", 1000), ("buffered", AIO_HIGH_WATER - 3), ("buffered", AIO_HIGH_WATER)]
+    else:
+        taken = [0, H2_FRAME_MAX, 2 * H2_FRAME_MAX, 3 * H2_FRAME_MAX, H2_INITIAL_WINDOW]
+        fills += [("buffered", t + H2_BUFFER_HIGH - 2) for t in taken]
+    return fills
+
+
+def fill_message(frame_len: int) -> dict:
+    """A binary message whose single frame is frame_len bytes on the wire (RFC 6455 5.2, server side: no mask)."""
+    n = frame_len - 2
+    if n >= 126:
+        n = frame_len - 4
+        if n >= 65536:
+            n = frame_len - 10
+    return {"type": "websocket.send", "bytes": bytes([n % 251]) * n}
+
 
 # off: offer header variants (RFC 6455 11.3.2 / 11.3.4: both headers may appear several times, which "is logically
 # the same as a single header field that contains all values")
@@ -217,6 +280,10 @@ def program(seq: Tuple[str, ...]) -> List[tuple]:
             prog.append(("return",))
         elif op == "wait":
             prog.append(("recv_until_disconnect",))
+        elif op == "gate":
+            prog.append(("gate", "g"))
+        elif isinstance(op, tuple):
+            prog.append(("send", fill_message(op[1])))
         else:
             prog.append(("send", MSG[op]))
     return prog
@@ -225,7 +292,9 @@ def program(seq: Tuple[str, ...]) -> List[tuple]:
 def run_model(seq: Tuple[str, ...], offered: List[str]) -> DecisionModel:
     m = DecisionModel(offered)
     for op in seq:
-        if op in MSG:
+        if isinstance(op, tuple):
+            m.feed(fill_message(op[1]))
+        elif op in MSG:
             m.feed(MSG[op])
     return m
 
@@ -321,6 +390,20 @@ def build(params: tuple, pick: Callable[[int, str], int]) -> tuple:
                 sub_lines = [", ".join(offered).encode()]
             if ext:
                 ext_lines = [b"permessage-deflate"]
+        elif family == "clwin":
+            # accept, wait for the explorer (the peer stalls meanwhile), [a message that fills the buffers], close
+            fills = clwin_fills(engine, carrier)
+            fill = fills[pick(len(fills), "fill")]
+            seq = ("acc", "gate") + ((("fill", fill[1]),) if fill[0] != "none" else ()) + (params[4], "wait")
+            offered, ext = OFFERS[params[3]]
+            case["fill"] = fill
+        elif family == "ka":
+            # keep-alive history: k ordinary requests, then the upgrade, all on one HTTP/1.1 connection
+            offered, ext = OFFERS["sub+ext"]
+            sub_lines, ext_lines = [", ".join(offered).encode()], [b"permessage-deflate"]
+            seq = (("acc", "acc_sub", "acc_hdr")[pick(3, "accept")], "send_t", "wait")
+            config["keep_alive_max_requests"] = params[3] + params[4]
+            case.update(pre=params[3], keep_alive_max_requests=params[3] + params[4])
         elif family == "off":
             sub_lines, ext_lines = SUBV[params[3]], EXTV[params[4]]
             offered = [t.strip().decode() for v in (sub_lines or []) for t in v.split(b",") if t.strip()]
@@ -343,6 +426,12 @@ def build(params: tuple, pick: Callable[[int, str], int]) -> tuple:
             opts = [c for c in HSWIN_CLOSINGS if c != "rst" or carrier == "ws/h2"]
             closing = opts[pick(len(opts), "closing")]
             timing = HSWIN_TIMINGS[pick(len(HSWIN_TIMINGS), "timing")]
+        elif family == "clwin":
+            opts = [c for c in CLWIN_CLOSINGS if c != "rst" or carrier == "ws/h2"]
+            closing = opts[pick(len(opts), "closing")]
+            timing = CLWIN_TIMINGS[pick(len(CLWIN_TIMINGS), "timing")]
+        elif family == "ka":
+            closing = "cc:1000"
         else:
             closing = params[5]
         case.update(carrier=carrier, offered=offered, ext=ext, seq=seq, closing=closing, model=model,
@@ -364,6 +453,11 @@ def build(params: tuple, pick: Callable[[int, str], int]) -> tuple:
                                    + [(n, [v]) for n, v in extra1])
             conn = {"carrier": "ws/h1", "deflate": ext}
             client: List[tuple] = [("data", 0, req)]
+            if family == "ka":
+                pre = case["pre"]
+                conn.update(methods=[b"GET"] * (pre + 1), upgrade_at=pre)
+                client = [("data", 0, h1_request(b"GET", b"/p%d" % i)) for i in range(pre)] + client
+                case["hs_event"] = client[-1]
             wsev = lambda b: ("cmd", 0, "ws_raw", b)  # noqa: E731
         else:
             hdrs = [(b":method", b"CONNECT"), (b":protocol", b"websocket"), (b":scheme", b"https"), (b":path", b"/w"),
@@ -391,6 +485,21 @@ def build(params: tuple, pick: Callable[[int, str], int]) -> tuple:
         if family in ("dec", "off"):
             sources = [("client", client + closing_events(closing))]
             apps = {"websocket": program(seq)}
+        elif family == "ka":
+            sources = [("client", client + closing_events(closing))]
+            apps = {"websocket": program(seq), "http": HS_APPS["http"]}
+        elif family == "clwin":
+            # the session is established, the peer stops reading, the application goes on: [filler,] websocket.close.
+            # 'during': the closing event arrives while that send is under way (guard: the application has issued its
+            # close), then the peer reads again; 'after': the peer reads again first.
+            head = client + [("cmd", 0, "ws_wait"), ("pause", 0), ("release", "g"), ("cmd", 0, "close_wait")]
+            if timing == "during":
+                tail = closing_events(closing) + [("resume", 0)]
+            else:
+                tail = [("resume", 0)] + closing_events(closing)
+            sources = [("client", head + tail)]
+            apps = {"websocket": program(seq)}
+            midflight = bool(params[5])
         elif family == "hswin":
             # the peer stops reading (h2: once the connection preface is exchanged), the handshake arrives, the
             # application accepts: the 101 / 200 is in flight (trio: send_all blocks; asyncio: it sits in the write
@@ -420,7 +529,7 @@ def build(params: tuple, pick: Callable[[int, str], int]) -> tuple:
             for i, name in enumerate(closing.split("+")):
                 sources.append((f"closer{i}", closing_events(name)))
             midflight = True
-    factory = make_window_client if family == "hswin" else make_client
+    factory = make_window_client if family in ("hswin", "clwin") else make_client
     sc = {"level": "conn", "conns": {0: conn}, "client_factory": factory, "apps": apps, "config": config,
           "sources": sources, "midflight": midflight, "trio_rev": midflight}
     return engine, sc, case
@@ -433,6 +542,9 @@ def scenarios(tier: str) -> List[Any]:
             for c in range(len(CON)):
                 out.append(("hs1", e, u, c))
         out.append(("hs2", e))
+        for k in (0, 1, 2):
+            for delta in (0, 1, 2):
+                out.append(("ka", e, "ws/h1", k, delta))
         seqs = sequences(3 if tier == "quick" else 5)
         for carrier in ("ws/h1", "ws/h2"):
             for offer in OFFERS:
@@ -450,6 +562,8 @@ def scenarios(tier: str) -> List[Any]:
                 for acc in accs:
                     # (one execution with the 84 KB response head costs ~100x a plain one: quiescent injection only)
                     out.append(("hswin", e, carrier, offer, acc, tier != "quick" and acc != "acc_big"))
+            for op in ("close", "close_c"):
+                out.append(("clwin", e, carrier, "none", op, tier != "quick"))
             races = [(("acc", "close", "wait"), "cc:1001"), (("acc", "close_c", "wait"), "cc:none"),
                      (("acc", "close", "wait"), "eof"), (("acc", "wait"), "cc:1001+eof"),
                      (("acc", "wait"), "cc:3000+reset"), (("acc", "send_t", "close", "wait"), "cc:1000+eof")]
@@ -461,6 +575,8 @@ def scenarios(tier: str) -> List[Any]:
 
 
 def bounds(tier: str, params: Any) -> dict:
+    if params[0] == "clwin" and params[5]:
+        return {"M": 1, "S": 0, "R": 1 if params[1] == "trio" else 0}
     if params[0] == "hswin" and params[5]:
         deep = params[3] == "none" and params[4] == "acc"
         return {"M": 2 if deep else 1, "S": 0, "R": 1 if params[1] == "trio" else 0}
@@ -475,19 +591,21 @@ def bounds(tier: str, params: Any) -> dict:
 # oracle
 
 
-def _client_response(cl: Any, carrier: str) -> Optional[dict]:
-    """The (first) response the client parsed: status, headers, body, complete."""
+def _client_response(cl: Any, carrier: str, idx: int = 0) -> Optional[dict]:
+    """The response to the handshake (request number idx of the connection) as the client parsed it: status,
+    headers, body, complete; + what the server wrote after it (the WebSocket bytes)."""
     if carrier == "ws/h1":
-        if not cl.h1.responses:
+        if len(cl.h1.responses) <= idx:
             return None
-        r = cl.h1.responses[0]
+        r = cl.h1.responses[idx]
         return {"status": r["status"], "headers": r["headers"], "body": r["body"],
-                "complete": r["complete"] or r["status"] == 101, "n": len(cl.h1.responses)}
+                "complete": r["complete"] or r["status"] == 101, "n": len(cl.h1.responses),
+                "ws_bytes": bytes(cl.h1.after_switch), "raw_head": raw_upgrade_response(cl.raw)}
     st = cl.h2.streams.get(1)
     if st is None or st["status"] is None:
         return None
     return {"status": st["status"], "headers": st["headers"], "body": st["body"], "complete": st["ended"] > 0,
-            "n": 1, "reset": st["reset"]}
+            "n": 1, "reset": st["reset"], "ws_bytes": bytes(st["body"]), "raw_head": None}
 
 
 def _hvals(headers: list, name: bytes) -> List[bytes]:
@@ -508,8 +626,21 @@ def _accept_checks(resp: dict, carrier: str, keys: List[bytes], sub: Optional[st
             out.append(V("accept-rendering", f"{tag}:accept-token", f"got {tok!r} for keys {keys!r}"))
         if [v.lower() for v in _hvals(h, b"upgrade")] != [b"websocket"]:
             out.append(V("accept-rendering", f"{tag}:upgrade-header", _hvals(h, b"upgrade")))
-        if not any(b"upgrade" in [t.strip().lower() for t in v.split(b",")] for v in _hvals(h, b"connection")):
-            out.append(V("accept-rendering", f"{tag}:connection-header", _hvals(h, b"connection")))
+        # RFC 6455 4.2.2 step 5.3: 'A |Connection| header field with value "Upgrade"' - that token and no other (a
+        # 101 that also says "close" is rejected by clients that read the last / the whole Connection header)
+        con = [t.strip().lower() for v in _hvals(h, b"connection") for t in v.split(b",") if t.strip()]
+        if con != [b"upgrade"]:
+            out.append(V("accept-rendering", f"{tag}:connection-header:{b','.join(con).decode('latin1')[:40]}",
+                         _hvals(h, b"connection")))
+        # the handshake response as an independent wsproto client that sent this handshake judges it
+        raw = resp.get("raw_head")
+        if raw is not None and len(raw) <= 16000:
+            tok_keys = [k for k in keys if tok and ws_accept_token(k) == tok[0]] or list(keys)
+            why = wsproto_client_verdict(raw, tok_keys[0], offered, ext_offered) if tok_keys else None
+            if why is not None:
+                slug = "".join(ch if ch.isalnum() else "-" for ch in why.split(": ", 1)[-1]).strip("-")[:48]
+                out.append(V("accept-rendering", f"{tag}:rejected-by-wsproto-client:{slug}",
+                             f"{why}; response {raw!r}"))
     subs = _hvals(h, b"sec-websocket-protocol")
     if any(s.decode("latin1") not in offered for s in subs):
         out.append(V("subprotocol-not-offered", f"{tag}:{subs[0].decode('latin1')}", f"offered {offered!r}"))
@@ -521,6 +652,14 @@ def _accept_checks(resp: dict, carrier: str, keys: List[bytes], sub: Optional[st
     exts = _hvals(h, b"sec-websocket-extensions")
     if exts and (not ext_offered or any(not e.strip().startswith(b"permessage-deflate") for e in exts)):
         out.append(V("accept-rendering", f"{tag}:extension-not-offered", exts))
+    # an extension the server USES must have been announced in the handshake response, on either carrier (RFC 6455
+    # 9.1; RFC 8441 5: the extension headers are carried by the CONNECT response): RSV1 on a frame the server wrote
+    # = permessage-deflate in use (RFC 7692 6), read off the wire by a hand-written frame reader
+    if negotiated_deflate(True, h) is None:
+        rsv1 = [f for f in server_frames(resp.get("ws_bytes", b"")) if f[1]]
+        if rsv1:
+            out.append(V("accept-rendering", f"{tag}:extension-in-use-not-announced",
+                         f"{len(rsv1)} frame(s) with RSV1, first opcode {rsv1[0][2]}, but sec-websocket-extensions={exts!r}"))
     return out
 
 
@@ -544,7 +683,7 @@ def oracle(w: Any, params: Any, case: dict) -> List[dict]:
             sites.setdefault(site, v["detail"])
     ws_insts = [i for i in w.instances if i.type == "websocket"]
     http_insts = [i for i in w.instances if i.type == "http"]
-    resp = _client_response(cl, carrier)
+    resp = _client_response(cl, carrier, case.get("pre", 0))
     status = None if resp is None else resp["status"]
     up_status = 101 if carrier == "ws/h1" else 200
     for inst in ws_insts:
@@ -587,8 +726,11 @@ def oracle(w: Any, params: Any, case: dict) -> List[dict]:
             out += _accept_checks(resp, carrier, case.get("keys", []), None, [], [], False, tag)
         return out
 
-    # ---- dec / race / hswin
-    if family == "hswin" and not any(e[0] == "resume" for _, e in w.driver.fired):
+    # ---- dec / race / hswin / clwin / ka
+    if family == "ka" and not any(e == case["hs_event"] for _, e in w.driver.fired):
+        # the server ended the connection (keep_alive_max_requests reached) before the upgrade could be sent
+        return [V("internal-error", f"{carrier}:{site}", detail) for site, detail in sorted(sites.items())]
+    if family in ("hswin", "clwin") and not any(e[0] == "resume" for _, e in w.driver.fired):
         # (mid-flight injection only) the peer stalled before the server could even answer the connection preface
         # and never read again: the application was not reached, the scenario says nothing
         return [V("internal-error", f"{carrier}:{site}", detail) for site, detail in sorted(sites.items())]
@@ -601,7 +743,7 @@ def oracle(w: Any, params: Any, case: dict) -> List[dict]:
     cut_short = d0 is not None and d0[0] == "response" and not d0[4]  # application stopped mid-response: the
     if cl.error is not None and not cut_short:                       # client rightly sees a truncated message
         out.append(V("client-parse", f"{carrier}:{cl.error.split(':')[0]}", cl.error))
-    if len(ws_insts) != 1 or http_insts:
+    if len(ws_insts) != 1 or len(http_insts) != case.get("pre", 0):
         out.append(V("valid-handshake-not-upgraded", f"{carrier}:valid:instances={len(w.instances)}", ""))
         return out
     inst = ws_insts[0]
@@ -628,7 +770,11 @@ def oracle(w: Any, params: Any, case: dict) -> List[dict]:
             out.append(V("accept-rendering", f"{carrier}{crashed}:no-response{why}", f"seq={seq} offered={offered!r}"))
         else:
             out += _accept_checks(resp, carrier, case["keys"], d[1], d[2], offered, case["ext"], carrier + crashed)
-            if not model.undefined and wsp is not None and family != "race":
+            # clwin: the wire is judged only where the client stayed to read all of it (it closed after the stalled
+            # writes had gone out; over HTTP/2 a filler beyond the window would need credit the closing client never gave)
+            wire_judged = family != "race" and (family != "clwin" or (
+                case["timing"] == "after" and closing.startswith("cc:") and (carrier == "ws/h1" or case["fill"][0] == "none")))
+            if not model.undefined and wsp is not None and wire_judged:
                 exp_msgs = [x for x in model.wire if x[0] != "close"]
                 if list(wsp.messages) != exp_msgs:
                     out.append(V("accept-rendering", f"{carrier}{crashed}:messages",
@@ -690,7 +836,9 @@ def oracle(w: Any, params: Any, case: dict) -> List[dict]:
                 allowed = own if first == "own-close" else _code_of(first, own)
         if allowed and got not in allowed:
             kind = "client-close" if first.startswith("cc:") else first
-            if case.get("timing") is not None:  # hswin: where the closing event fell
+            if family == "clwin":  # where the closing event fell
+                kind += {"during": ":while-close-frame-in-flight", "after": ":after-stalled-close-frame"}[case["timing"]]
+            elif case.get("timing") is not None:  # hswin
                 kind += {"during": ":while-handshake-response-in-flight",
                          "after": ":after-stalled-handshake-response"}[case["timing"]]
             want = "|".join(str(c) for c in sorted(allowed))
